@@ -210,7 +210,10 @@ class ComponentState(object):
                         except TypeError as error:
                             pass
 
-                    return componentState
+                    # Emit a snapshot: the dictionary is updated by this (serial) thread while a thread of the
+                    # ComponentState pool computes the difference to the previous state; sharing one mutable
+                    # object lets a state change be absorbed without ever being published.
+                    return componentState.copy()
 
                 return UpdateStateBasedOnEngine
 
